@@ -1013,7 +1013,7 @@ def minimise(athlib, programs, spec, accepted, vclass, step_cap):
 
 TIERS = {
     # scenarios, schedules per scenario, wall cap for the pool
-    'quick': {'scenarios': 1400, 'k': 24, 'wall': 900, 'det': 24},
+    'quick': {'scenarios': 1800, 'k': 24, 'wall': 1200, 'det': 24},
     'thorough': {'scenarios': 24000, 'k': 32, 'wall': 7200, 'det': 192},
 }
 
